@@ -959,15 +959,17 @@ def check_sgr(case):
                     f"bg {vc.bg!r} flags {sorted(vc.flags)}; the palette specifies {_show_acc(acc)}"
                 )
                 prio, clause = 0, "sgr-cell"
-                if is_alias:
+                fixed = vc._replace(fg=XTERM256[245] if vc.fg == _URWID_245 else vc.fg,
+                                    bg=XTERM256[245] if vc.bg == _URWID_245 else vc.bg)
+                if fixed != vc and _cell_ok(fixed, glyphs[i], acc):
+                    # the only thing wrong is urwid's RGB for colour 245 (C18's table defect seen through the display)
+                    prio, clause = 1, "sgr-cell:rgb-of-245"
+                elif is_alias:
                     prio, clause = 2, "sgr-cell:alias"
                     # what the name meant at any earlier time (or nothing), under any of the settings so far
                     stale = [DEFAULT_EXPECT] + [_entry_expect(h, d, b) for h in model[cell]["hist"] for d, b in states]
                     if any(_cell_ok(vc, glyphs[i], acc2) for acc2 in stale):
                         msg += " [alias shown as the name's previous definition]"
-                elif (vc.fg == _URWID_245 and any(f is not ANY and XTERM256[245] in f for f, _, _ in acc)) or (
-                        vc.bg == _URWID_245 and any(b is not ANY and XTERM256[245] in b for _, b, _ in acc)):
-                    prio, clause = 1, "sgr-cell:rgb-of-245"
                 if worst is None or prio < worst[0]:
                     worst = (prio, clause, msg)
             if worst is not None:
@@ -1446,11 +1448,11 @@ def shard(ctx):
                                   f"width 1..{6 if full else 4} x wrap x align x str/bytes x 3 encodings",
                   stride=False)
     if ctx.failure is None:
-        ctx.given("maps", _maps_case_strategy(), ctx.scale(1200, 40000), nontrivial=maps_nontrivial, classify=maps_classes)
+        ctx.given("maps", _maps_case_strategy(), ctx.scale(1200, 30000), nontrivial=maps_nontrivial, classify=maps_classes)
     if ctx.failure is None:
-        ctx.given("sgr", _sgr_case_strategy(), ctx.scale(800, 25000), nontrivial=sgr_nontrivial, classify=sgr_classes)
+        ctx.given("sgr", _sgr_case_strategy(), ctx.scale(800, 20000), nontrivial=sgr_nontrivial, classify=sgr_classes)
     if ctx.failure is None:
-        ctx.given("markup", _markup_case_strategy(), ctx.scale(2500, 60000), nontrivial=markup_nontrivial,
+        ctx.given("markup", _markup_case_strategy(), ctx.scale(2500, 50000), nontrivial=markup_nontrivial,
                   classify=markup_classes)
     for k, v in sorted(STATS.items()):
         ctx.count(k, v)
